@@ -428,13 +428,13 @@ Lemma harm_bounds n0 m0 : Z.abs n0 <= cap_harm -> Z.abs m0 <= cap_harm ->
   let ns := nc - (N' + 1) in
   Z.abs N' <= 512 /\ Z.abs M' <= 512 /\ Z.abs nc <= cap_count /\ Z.abs ns <= cap_count.
 Proof.
-  unfold cap_harm, cap_count. intros Hn Hm N' M' nc ns.
+  unfold cap_harm, cap_count. intros Hn Hm. set (N' := n0 + 1). set (M' := m0 + 1).
   assert (A : 0 <= (N' + 1) * (N' + 2) / 2 <= 513 * (513 + 1) / 2).
   { replace (N' + 2) with ((N' + 1) + 1) by lia. apply tri_bounds. unfold N'. lia. }
   assert (B : 0 <= (N' - M') * (N' - M' + 1) / 2 <= 1022 * (1022 + 1) / 2).
   { apply tri_bounds. unfold N', M'. lia. }
   change (513 * (513 + 1) / 2) with 131841 in A. change (1022 * (1022 + 1) / 2) with 522753 in B.
-  unfold ns, nc. unfold N', M' in *. repeat split; lia.
+  unfold N', M' in *. repeat split; lia.
 Qed.
 
 Lemma cap_harm_name pre x : (pre = "IDF037_" \/ pre = "IDF038_")%string -> cap T (pre ++ x)%string = Some cap_harm.
@@ -662,7 +662,7 @@ Proof.
       * intros x Hx. unfold conds. apply in_flat_map. exists (ident, b). split; [exact IL|exact Hx].
       * constructor.
       * exact Inv_nil.
-    + cbn. exact Logic.I.
+    + exact (Inv_upd [] "DF002" (VStr (codes ident)) Inv_nil Logic.I).
   - unfold identity in ID. destruct p as [|b0 [|b1 r]]; try discriminate.
     destruct (N.eqb (msgnum b0 b1) 4076); [destruct r|]; discriminate.
 Qed.
